@@ -225,3 +225,63 @@ def hostile_schedules(rng, props, packets, per_run=2, victims=(1,), groups=()):
         sc.add(a="round", conn=0, dt=300, n=bound(300, 300, 5000, 60000) + 2)
         scheds.append(sc.s)
     return scheds
+
+
+# ---------------------------------------------------------------------------------------------------------------
+# C13: packet sizes
+# ---------------------------------------------------------------------------------------------------------------
+def big(v):
+    return v if v < (1 << 31) else str(v)
+
+
+def size_schedules(rng, props, n_pack, full):
+    out = []
+    bases = [0, 60, 63, 16380, 16383, (1 << 30) - 4, (1 << 30), (1 << 62) - 400]
+    kinds_all = [["RO"], ["RU"], ["U"], ["U", "RO"], ["RO", "RU", "U"]]
+    for i in range(n_pack):
+        kinds = rng.choice(kinds_all)
+        chans = [chan(j, k, resend=rng.choice([100, 300])) for j, k in enumerate(kinds)]
+        cfg = {"conns": [1], "sc": chans, "cs": chans, "budget": rng.choice([60000, 60000, 5000]), "seqbase": big(rng.choice(bases)),
+               "midbase": big(rng.choice(bases)), "props": props}
+        sc = Sched("pack-%d" % i, cfg)
+        pool = rng.choice([[1185, 1190, 1195, 1196, 1197, 1198, 1199, 1200], [1000, 700, 600, 88, 89, 1200, 1199], [1, 63, 64, 1100, 1136, 1137, 1138, 1200]])
+        for t in range(rng.randint(2, 6)):
+            for side in "SC":
+                for _ in range(rng.randint(1, 6)):
+                    c = rng.choice(chans)
+                    sc.send(1, side, c["id"], rng.choice(pool))
+            sc.add(a="update", conn=0, side="S", dt=300)
+            sc.add(a="update", conn=1, side="C", dt=300)
+            sc.add(a="flush", conn=1, side="S")
+            sc.add(a="flush", conn=1, side="C")
+            for _ in range(rng.randint(0, 12)):
+                sc.add(a="deliver", conn=1, to=rng.choice("SC"), sel=rng.choice([0, 0, 3]), keep=False)
+        sc.heal_rounds(1, 300, live=False)
+        out.append(sc.s)
+    # pending acknowledgement ranges: valid empty unreliable packets carrying chosen sequence numbers
+    top = (1 << 62) - 1
+    patterns = {
+        "asc_wide": [k * (1 << 32) + 5 for k in range(1, 150)],
+        "desc_wide": [k * (1 << 32) + 5 for k in range(150, 0, -1)],
+        "asc_alt": [2 * k for k in range(0, 200)],
+        "desc_alt": [2 * k for k in range(200, 0, -1)],
+        "top": [top - 2 * k for k in range(0, 120)],
+        "top_asc": [top - 2 * k for k in range(120, -1, -1)],
+        "zigzag": [x for k in range(1, 80) for x in (k * (1 << 40), (1 << 61) - k * (1 << 40))],
+        "mixed_width": [63, 64, 16383, 16385, (1 << 30) - 1, (1 << 30) + 1, (1 << 40)] + [1000 + 3 * k for k in range(80)],
+    }
+    for name, seqs in patterns.items():
+        for to in "SC":
+            chans = default_chans()
+            cfg = {"conns": [1], "sc": chans, "cs": chans, "budget": 60000, "seqbase": 0, "midbase": 0, "props": props}
+            sc = Sched("acks-%s-%s" % (name, to), cfg)
+            for j, q in enumerate(seqs):
+                sc.add(a="hostile", conn=1, to=to, hex=W.small_unreliable(q, 0, []).hex(), shape="emptyseq", ctx=name)
+                if j % 16 == 15 or j == len(seqs) - 1:
+                    sc.add(a="flush", conn=1, side=to)
+            sc.add(a="update", conn=0, side="S", dt=300)
+            sc.add(a="update", conn=1, side="C", dt=300)
+            sc.add(a="flush", conn=1, side=to)
+            sc.heal_rounds(1, 300, live=False)
+            out.append(sc.s)
+    return out
